@@ -51,7 +51,7 @@ func structTypeX(r *rand.Rand, ls []xLabel, ptr bool) reflect.Type {
 		var tags []string
 		fname := fmt.Sprintf("F%d", i)
 		if l.Name != "" {
-			if r.Intn(2) == 0 && l.Name[0] < 0x80 {
+			if r.Intn(2) == 0 && l.Name[0] < 0x80 && !strings.Contains(l.Name, " ") {
 				// name via the field name
 				fname = strings.ToUpper(l.Name[:1]) + recase(r, l.Name[1:])
 				tags = append(tags, "")
@@ -223,6 +223,13 @@ func runC14(c *CaseCtx) (res CaseResult) {
 	}
 	names := []string{"alpha", "beta", "gamma", "delta", "x", "ärger"}
 	subs := []string{"s", "t9", "a+b", "k=v", "v1.2/x"}
+	if c.Idx%17 == 3 {
+		// names and subtypes are free-form text: a blank at their edge is
+		// part of them
+		names = []string{"alpha ", "beta ", " gamma", "delta ", "x ", "ärger "}
+		subs = []string{"s ", " t9", "a+b ", "k=v ", "v1.2/x "}
+		res.obs("cases_with_blank_edged_labels", 1)
+	}
 	list := func(n int, form int, allowErr bool) []xLabel {
 		var out []xLabel
 		usedN := map[string]bool{}
@@ -1144,6 +1151,28 @@ func runC16(c *CaseCtx) (res CaseResult) {
 	if len(grouped) > 0 {
 		single = append(single, am.Typed(grouped...))
 		res.obs("several_values_in_one_Typed_option", 1)
+	}
+	if c.Idx%3 == 2 && len(ls) > 0 {
+		// an UNUSED converter that was itself made with default values for
+		// the keys of this call: a converter's own defaults are its own
+		var cdef []am.Arg
+		for _, l := range ls {
+			v := mk(typeIndex(l.T), -88).Interface()
+			if l.Name != "" {
+				cdef = append(cdef, am.NamedSubtype(l.Name, v, l.Sub))
+			} else {
+				cdef = append(cdef, am.TypedSubtype(v, l.Sub))
+			}
+		}
+		if cv, err := am.NewFunc(func(in struct {
+			am.Struct
+			Zzunused xCycNode
+		}) *xCycNode {
+			return nil
+		}, cdef...); err == nil {
+			single = append(single, am.ConverterFunc(cv))
+			res.obs("unused_converters_with_defaults_of_their_own", 1)
+		}
 	}
 	f, err := am.NewFunc(fn.Interface())
 	if err == nil {
